@@ -156,7 +156,7 @@ def tr_pairs(n):
 
 # one P-square step at a time: the marker state of the real Quantile before / after every add of long streams,
 # decided by TLC with Quantile.tla's Step over unbounded rationals (QuantileBig.tla, checked against Quantile.tla)
-TR_QSTEP = {"module": "Trace_QStep", "cfg": "Trace_QStep.cfg", "family": "qstep", "args": {"n": ("150", "800")}, "timeout": 3600}
+TR_QSTEP = {"module": "Trace_QStep", "cfg": "Trace_QStep.cfg", "family": "qstep", "args": {"n": ("150", "500")}, "timeout": 3600}
 MC_QBIG = {"module": "MC_QuantileBig", "cfg": "MC_QuantileBig.cfg", "workers": 4, "timeout": 3600}
 
 
@@ -178,7 +178,7 @@ PROPS = {
         "replay": [gen_seq("Mean,Variance", E05)],
         "direct": [long_job("Mean,Variance", E05, max_n=("100000", "1000000"))],
         "apalache": [{"module": "Ind_Variance", "skip": (True, False)}],
-        "trace": [tr_mom(("400", "4000"))],
+        "trace": [tr_mom(("400", "2000"))],
         "rule": "every sequence over the lattice {-3,-1,0,2,3} up to the length bound, fed to Mean and Variance under six exact "
                 "affine embeddings (magnitudes 1e-30..1e30, offsets up to 1e12 spreads); distinct = distinct histories; "
                 "non-trivial = n >= 2 and non-constant data",
@@ -194,7 +194,7 @@ PROPS = {
         "replay": [gen_tree(ALLM, E05), gen_hist(ALLM, "E0,E3,E5")],
         "direct": [long_job(ALLM.replace(",M4", "").replace(",M5", "").replace(",M8", ""), "E0,E3,E5")],
         "apalache": [{"module": "Ind_Variance", "skip": (True, False)}],
-        "trace": [tr_mom(("200", "2000")), TR_LEN],
+        "trace": [tr_mom(("200", "800")), TR_LEN],
         "rule": "every sequence over {-1,0,2} up to the length bound, cut into every composition of up to K contiguous chunks "
                 "(empty chunks included), merged in every order and direction of adjacent merges (all binary merge trees); "
                 "plus arbitrary add/merge/clone/fresh histories; ten concrete types; six embeddings",
@@ -208,7 +208,7 @@ PROPS = {
         "mc": [MC_BIG, MC_BIGSTATS, MC_SEQ],
         "replay": [gen_seq("Skewness,Kurtosis", "E0,E1,E2,E3,E5")],
         "direct": [long_job("Skewness,Kurtosis", "E0,E1,E2,E3,E5")],
-        "trace": [tr_mom(("300", "3000"))],
+        "trace": [tr_mom(("300", "1500"))],
         "rule": "as C01 for Skewness and Kurtosis; the asymmetric lattice yields both signs of skewness, two-point, "
                 "single-outlier, bimodal and progression shapes",
         "bounds": {"quick": "L <= 5", "thorough": "L <= 7"},
@@ -221,7 +221,7 @@ PROPS = {
         "mc": [MC_BIG, MC_BIGSTATS, MC_SEQ, MC_P6, MC_P8, MC_P10],
         "replay": [gen_seq(GENERIC, E05), gen_p10(GENERIC, "E0,E1,E3,E5"), gen_seq(GENERIC, "E0,E1", maxlen=("7", "8"), alphabet="GenAlphabetZeroSkew")],
         "direct": [long_job("Moments4,M6,M10", "E0,E1,E3,E5")],
-        "trace": [tr_mom(("160", "1200"))],
+        "trace": [tr_mom(("160", "500"))],
         "rule": "as C01 for define_moments! types of order 4 (crate's Moments4 and a harness instantiation), 5, 6, 8, 10; "
                 "orders above the specification run's P use the harness's exact i128 evaluation of the definition, "
                 "cross-checked against the specification on every order both carry",
@@ -235,7 +235,7 @@ PROPS = {
         "mc": [MC_BIG, MC_BIGSTATS, MC_SEQ],
         "replay": [gen_pair("Weighted", "seq", "E0:W0,E3:W1,E5:W2", types="WeightedMeanWithError", maxlen=("4", "5")), gen_seq("Variance,Skewness,Kurtosis," + GENERIC, "E0,E1,E2,E3,E5"), gen_tree("Variance,Kurtosis,Moments4,M6", "E0,E3")],
         "direct": [long_job("Variance,Kurtosis,Moments4,M6", "E0,E3")],
-        "trace": [tr_mom(("200", "2000"))],
+        "trace": [tr_mom(("200", "800"))],
         "rule": "as C01; sample_variance / variance_of_mean / error on every type that has them, sample_skewness and "
                 "sample_excess_kurtosis on all define_moments! types, sentinel rows below the minimum sample size",
         "bounds": {"quick": "L <= 5", "thorough": "L <= 7"},
@@ -261,7 +261,7 @@ PROPS = {
         "mc": [MC_BIG, MC_BIGSTATS, MC_W1, MC_C1, MC_SEQ, MC_MERGE],
         "replay": [GEN_INGEST, gen_q("small", "E0"), gen_mm("hist", depth=("3", "3")), gen_pair("Weighted", "seq", "E0:W0,E5:W2,E10:W0,E10:W1,E0:W3", maxlen=("4", "5")), gen_pair("Covariance", "seq", "E0:E0,E3:E5,E10:E10", maxlen=("4", "5")), gen_seq(ALLM, E05 + ",E10"), gen_hist(ALLM, "E0")],
         "direct": [{"cmd": "direct", "family": "rayontiny", "args": {}}, long_job("Mean,Variance,Skewness,Kurtosis,Moments4,M6,M10", E05 + ",E10", max_n="10000")],
-        "trace": [tr_pairs(("150", "800")), tr_mom(("200", "1000"))],
+        "trace": [tr_pairs(("150", "600")), tr_mom(("200", "600"))],
         "rule": "every accessor of every type at n = 0..4 and on every constant sequence in the enumerated set, sentinel class "
                 "or exact value required",
         "bounds": {"quick": "L <= 5", "thorough": "L <= 7"},
@@ -275,7 +275,7 @@ PROPS = {
         "replay": [GEN_INGEST, gen_h("hist", 2, depth=("3", "4")), gen_h("hist", 3), gen_pair("Weighted", "tree", "E0:W0,E6:W1,E7:W2,E8:W0,E9:W1,EM1:W0,E14:W1,E7:W1,E14:W0", maxlen=("3", "4")), gen_pair("Weighted", "seq", "EM1:W0,EM1:W2", maxlen=("4", "5")), gen_pair("Covariance", "tree", "E6:E7,E8:E9,E9:E6,EM1:EM1,E14:E14", maxlen=("3", "4")), gen_seq(ALLM, E09 + ",EM1"), gen_tree(ALLM, "E0,E4,E6,E7,E8,E9,EM1,E14"), gen_hist(ALLM, "E6,E7,E8,E9,EM1")],
         "direct": [long_job("Mean,Variance,Skewness,Kurtosis,Moments4,M6,M10", "E0,E4,E6,E7,E8,E9,E10"), HIST_BIG],
         "apalache": [{"module": "Ind_Variance", "skip": (True, False)}, {"module": "Ind_EffLen", "skip": (True, False)}],
-        "trace": [tr_pairs(("200", "2000")), tr_mom(("250", "2500")), tr_h(3, n=("5000", "20000"))],
+        "trace": [tr_pairs(("200", "1000")), tr_mom(("250", "1000")), tr_h(3, n=("5000", "20000"))],
         "rule": "all behaviours of C01/C02 replayed under embeddings without any conditioning bound (one-ulp spreads at 2^52, "
                 "denormals, 1e149, offsets 1e15 spreads); sign and range conditions on every observation",
         "bounds": {"quick": "L <= 5; tree L <= 4", "thorough": "L <= 7; tree L <= 5"},
@@ -306,7 +306,7 @@ PROPS = {
                    gen_pair("Weighted", "seq", "E0:W0,E3:W1,E0:WX", maxlen=("5", "6"), wide=True),
                    gen_pair("Weighted", "tree", "E0:W0,E5:W2", maxlen=("4", "5"), wide=True),
                    gen_pair("Weighted", "hist", "E0:W0,E0:WX", maxlen="3", depth=("4", "5"), wide=True)],
-        "trace": [tr_pairs(("250", "2500"))],
+        "trace": [tr_pairs(("250", "1000"))],
         "rule": "every sequence of (value, weight) pairs over {-1,0,2} x {0,1,3} up to the length bound (zero weights at every "
                 "position, first included), every chunking into <= 3 chunks and merge tree, arbitrary histories; "
                 "WeightedMean and WeightedMeanWithError; value embeddings x weight scales 2^-19, 1, 2^18; the same again over "
@@ -323,7 +323,7 @@ PROPS = {
                    gen_pair("Covariance", "tree", "E0:E0,E3:E5,E5:E3", maxlen=("3", "4")),
                    gen_pair("Covariance", "hist", "E0:E0,E3:E5", depth=("4", "4"))],
         "apalache": [{"module": "Ind_Covariance", "skip": (True, False)}],
-        "trace": [tr_pairs(("250", "2500"))],
+        "trace": [tr_pairs(("250", "1000"))],
         "rule": "every sequence of pairs over {-1,0,2}^2 up to the length bound (collinear, anti-collinear, partially correlated), "
                 "every chunking and merge tree, arbitrary histories; independent embeddings of x and y; a twin object fed the "
                 "swapped pairs is checked against the swapped specification values",
@@ -456,7 +456,7 @@ PROPS = {
         "replay": [{"module": "Gen_Moments", "cfg": "Gen_Moments_rayon.cfg",
                     "overrides": {"MaxLen": ("4", "5"), "Slots": ("{1, 2, 3, 4, 5, 6}", "{1, 2, 3, 4, 5, 6, 7, 8}")},
                     "family": "moments", "types": ALLM, "embeddings": "E0,E3,E5,E10"}],
-        "trace": [tr_mom(("150", "1000")), {"module": "Trace_Rayon", "cfg": "Trace_Rayon.cfg", "family": "rayon", "args": {"reps": ("2", "8")}, "timeout": 3600}],
+        "trace": [tr_mom(("150", "400")), {"module": "Trace_Rayon", "cfg": "Trace_Rayon.cfg", "family": "rayon", "args": {"reps": ("2", "8")}, "timeout": 3600}],
         "direct": [{"cmd": "direct", "family": "rayon", "args": {"max_n": ("10000", "1000000"), "reps": ("2", "4")}},
                    long_job("Variance,Skewness,Kurtosis,Moments4", "E0,E3", max_n="1000")],
         "rule": "(a) Rayon.tla model-checked: every split tree and join order of N items returns an object holding 0..N-1 in order; "
